@@ -141,22 +141,28 @@ func run(c *lib.Ctx) error {
 		nCfg, span = 30, 8
 	}
 	var sweeps []*sweep
+	pairs := lib.NewPairCover()
 	for _, a := range assets {
 		ref := a.Ref()
 		N := int64(len(ref.Segs))
 		segMS := a.LoopMS / N
 		for k := 0; k < nCfg; k++ {
-			cfg := lib.TLCfg{StartS: starts[rng.Intn(len(starts))], Snr: -1, Tsbd: tsbds[rng.Intn(len(tsbds))], Mode: modes[rng.Intn(len(modes))]}
-			switch rng.Intn(7) {
-			case 0:
-				cfg.AtoMS = segMS / 4
-			case 1:
-				cfg.AtoMS = 1 + rng.Int63n(segMS-1)
-			case 2:
-				cfg.AtoMS = segMS + segMS/2 // longer than a segment
-			case 3:
-				cfg.AtoMS = a.LoopMS*(1+rng.Int63n(2)) + segMS + segMS/2 // reaches more than a whole loop ahead
+			var cands []lib.TLCfg
+			for q := 0; q < 6; q++ {
+				cand := lib.TLCfg{StartS: starts[rng.Intn(len(starts))], Snr: []int64{-1, -1, 0, 3}[rng.Intn(4)], Tsbd: tsbds[rng.Intn(len(tsbds))], Mode: modes[rng.Intn(len(modes))]}
+				switch rng.Intn(7) {
+				case 0:
+					cand.AtoMS = segMS / 4
+				case 1:
+					cand.AtoMS = 1 + rng.Int63n(segMS-1)
+				case 2:
+					cand.AtoMS = segMS + segMS/2 // longer than a segment
+				case 3:
+					cand.AtoMS = a.LoopMS*(1+rng.Int63n(2)) + segMS + segMS/2 // reaches more than a whole loop ahead
+				}
+				cands = append(cands, cand)
 			}
+			cfg := pairs.Pick("mpd", segMS, cands) // the candidate covering the most new pairs of option values
 			if k < 3 {
 				cfg = lib.TLCfg{Snr: -1, Tsbd: -1, Mode: modes[k]}
 			}
@@ -254,6 +260,7 @@ func run(c *lib.Ctx) error {
 	c.Res.Evaluations = n
 	c.Res.ModelCases = len(terms)
 	c.Res.DistinctNontrivial = len(distinct)
+	c.Res.Notes = append(c.Res.Notes, pairs.Summary())
 	c.Res.Rule = fmt.Sprintf("%d sweeps (bundled assets x sampled {Timeline-Time, Timeline-Number, Number} x start {0,30,1.6e9} x tsbd {default,0,1,10,60,61} x availabilityTimeOffset {0, 1/4 segment, random} x {no stop, stop time, periods_60}) of ordered instants: for %d+ consecutive segments the millisecond before, at and after the segment becomes available and leaves the time-shift window, stream start, around the stop time; relations checked over every ordered pair of a sweep; distinct = distinct (configuration, MPD content) pairs seen", len(sweeps), span)
 	for i := 0; i < 3 && i < len(sweeps); i++ {
 		s := sweeps[(i*7+1)%len(sweeps)]
